@@ -29,6 +29,9 @@ def run(prop, tier, replay):
         ("laws-str6", dict(kind="str", k=6, mz=2 if quick else 3, inv=inv), None, []),
         ("laws-float", dict(kind="float", k=6, mz=2 if quick else 3, inv=inv), None, []),
         ("machine-zonemap", dict(mode="zone", itype="zonemap", k=0, mz=1, rz=2, mf=2, mr=3 if quick else 5, inv=inv), None, MACHINE),
+    ] + ([] if quick else [
+        ("machine-zonemap-k1", dict(mode="zone", itype="zonemap", k=1, mz=1, rz=2, mf=2, mr=4, inv=inv), None, MACHINE),
+    ]) + [
         ("asbuilt-float-nan", dict(kind="float", k=6, mz=2, dev='{"StatsIgnoreNaN"}', inv=inv), "LawsC29", []),
         ("asbuilt-constant-page", dict(kind="int", k=3, mz=2, dev='{"ConstantPageIgnoresNulls"}', inv=inv), "LawsC29", []),
     ]
